@@ -9,4 +9,5 @@ pub mod stubs;
 pub mod c12;
 pub mod c13;
 pub mod c10;
+pub mod c08;
 pub mod c19;
